@@ -511,6 +511,70 @@ example : cachedRun 25 (List.range 60) none [(takeNeed (some 3), take (some 3) f
 theorem cache_sealing_counterexample :
     cacheRunSealing 25 (List.range 60) none [some 1, none] = [[0], List.range 25] := sealing_cex
 
+/-! ### Phase 5: random / ordering filters behind shared caches, several environments -/
+
+/-- several environments, each behind its own Cache object, any number of downstream pipelines per
+environment, ANY history of reads (each pulling `need` items and then leaving — closed, dropped or
+alive): every read delivers its filter applied to the first `need` interactions of ITS OWN
+environment, whatever was read of this or any other environment before -/
+theorem multi_cached_reads {α β} (nSlice : Nat) (envs : Nat → List α) (reads : List (Nat × Option Nat × (List α → β))) :
+    multiCachedRun nSlice envs (fun _ => none) reads = reads.map (fun r => r.2.2 (readSpec (envs r.1) r.2.1)) :=
+  multiCachedRun_spec nSlice envs (fun _ => none) (fun _ => trivial) reads
+
+/-- whole-input branches (Shuffle / Sort / Reservoir: generators that materialise their input at the
+first `next`; Riffle: materialises when the pipeline is read; Reservoir(0): never reads) behind the
+shared caches, with the amount each read pulls computed by the model (`pullNeed`): every read in
+every history delivers `branchSpec` — the filter on ALL interactions of its own environment, cut
+after the `k` items the consumer took -/
+theorem cached_random_branches {α} (nSlice : Nat) (envs : Nat → List α) (reads : List (BranchRead α)) :
+    branchRun nSlice envs reads = reads.map (branchSpec envs) := branchRun_spec nSlice envs reads
+
+/-- in particular every COMPLETE read of such a branch delivers exactly the filter's result on the
+environment's interactions — the same at every point of every history (so: determined by the seed),
+errors of the filter (Sort on a missing key) included -/
+theorem cached_random_complete_reads {α} (nSlice : Nat) (envs : Nat → List α) (reads : List (BranchRead α))
+    (i : Nat) (hi : i < reads.length) (hk : reads[i].k = none) (hp : reads[i].pull ≠ .never) :
+    (branchRun nSlice envs reads)[i]? = some (reads[i].F (envs reads[i].env)) :=
+  branchRun_complete nSlice envs reads i hi hk hp
+
+/-- `Pull.never` is right for `Reservoir(0)`: its result does not depend on the input -/
+theorem reservoir_zero_never_pulls {R α} (ops : FloatOps R) (strict : Bool) (s nT : Nat) (xs : List α) :
+    reservoirF ops (some 0) strict s nT xs = .ok [] := reservoirF_zero ops strict s nT xs
+
+/-- two environments (60 and 3 interactions, `Cache(25)`): `riffle` of env 0 abandoned at once, a shuffle of
+env 1 never started, `take`-like consumer of 2 of a riffle, then complete reads — hypotheses of
+`cached_random_complete_reads` met at index 3 -/
+example : (branchRun 25 (fun e => if e = 0 then List.range 60 else [100, 101, 102])
+      [⟨0, .eager, some 0, fun xs => .ok (riffleSeeded 3 (.int 1) xs)⟩,
+       ⟨1, .onFirst, some 0, fun xs => .ok (shuffleSeeded (.int 5) xs)⟩,
+       ⟨1, .onFirst, some 2, fun xs => .ok (shuffleSeeded (.int 5) xs)⟩,
+       ⟨0, .eager, none, fun xs => .ok (riffleSeeded 3 (.int 1) xs)⟩])[3]?
+    = some (.ok (riffleSeeded 3 (.int 1) (List.range 60))) :=
+  cached_random_complete_reads _ _ _ 3 (by decide) rfl (by decide)
+
+/-! ### Phase 5: Reservoir raises exactly when the run-time check on lengths fails -/
+
+/-- for every count, mode, seed state, step list and input: `Reservoir.filter` returns iff
+`reservoirOk` (a Boolean computed from the steps and the input LENGTH only) holds.  This replaces the
+universally quantified hypotheses of `reservoir_total_partial` / `reservoir_total_under_laws` by one
+that the driver evaluates on the IEEE steps of every generated case (`runok`), and is an equivalence -/
+theorem reservoir_total_iff_checked {α} (count : Option Nat) (strict : Bool) (s : Nat) (steps : List Step) (xs : List α) :
+    (∃ out, reservoir count strict s steps xs = .ok out) ↔ reservoirOk count steps xs.length = true :=
+  reservoir_ok_iff count strict s steps xs
+
+/-- the same for the filter with the float formulas built in -/
+theorem reservoirF_total_iff_checked {R α} (ops : FloatOps R) (n : Nat) (strict : Bool) (s nT : Nat) (xs : List α) :
+    (∃ out, reservoirF ops (some n) strict s nT xs = .ok out) ↔
+      reservoirOk (some n) (floatSteps ops n ops.one (triples (reservoirState (some n) s xs) nT)) xs.length = true :=
+  reservoirF_ok_iff ops n strict s nT xs
+
+example : reservoirOk (some 2) [.skip 0 1, .skip 1 0, .skip 5 0] 5 = true := by decide
+/-- the check is necessary: the underflow run of `reservoir_underflow_counterexample` fails it -/
+theorem reservoir_check_counterexample :
+    reservoirOk (some 1) [.skip 3 0, .raise .zeroDivision] 10 = false ∧
+    reservoir (some 1) false 0 [.skip 3 0, .raise .zeroDivision] (List.range 10) = .error .zeroDivision := by
+  decide +kernel
+
 /-! ### Phase 4: translator tie — the shortcut table of `Environments` -/
 
 /-- the shortcut → filter-class(arguments) table and the constructor signatures extracted from the
@@ -534,5 +598,37 @@ theorem shortcut_arguments_reach_their_parameters :
     ∧ f "shuffle" "Shuffle" "seed" = some "each($seeds)" ∧ f "sort" "Sort" "*keys" = some "*$keys"
     ∧ f "batch" "Batch" "batch_size" = some "$batch_size" ∧ f "cache" "Cache" "n_slice" = some "25"
     ∧ f "take" "Slice" "start" = none := by decide
+
+/-! ### Phase 5: translator tie — the control flow of `Environments.shuffle` and `Environments.chunk` -/
+
+/-- the statement lists extracted from the current source are the programs the model assumes -/
+theorem shuffle_chunk_programs_as_modelled :
+    Coba.Generated.C09.shuffleProgram = shuffleProgram ∧ Coba.Generated.C09.chunkProgram = chunkProgram := by decide
+
+/-- the EXTRACTED `shuffle` program, run by the model's interpreter, computes the model's seed list for
+every call form: `n=k` → `range(k)` (`[1]` for 0), `seed=v`/`seeds=v` → `[v]` (0 stays 0), a list /
+positional seeds → flattened one level, nothing → `[1]` -/
+theorem shuffle_program_computes_seeds (c : ShuffleCall) :
+    runShuffle c 20 Coba.Generated.C09.shuffleProgram none = some (shuffleSeeds c) :=
+  shuffle_chunk_programs_as_modelled.1 ▸ runShuffle_model c
+
+/-- the EXTRACTED `chunk` program appends `Chunk` and, iff `cache`, a `Cache` to every environment -/
+theorem chunk_program_computes_filters (cache : Bool) :
+    runChunk cache Coba.Generated.C09.chunkProgram = some (chunkFilters cache) :=
+  shuffle_chunk_programs_as_modelled.2 ▸ runChunk_model cache
+
+/-- `shuffle` always builds at least one Shuffle filter per environment -/
+theorem shuffle_seeds_nonempty (c : ShuffleCall) : shuffleSeeds c ≠ [] := shuffleSeeds_ne_nil c
+
+/-- `chunk(cache)` is an identity on the interaction sequence for both values of `cache`, in every
+history of complete and abandoned reads -/
+theorem chunk_reads {α} (cache : Bool) (nSlice : Nat) (items : List α) (reads : List (Option Nat)) :
+    chunkRun cache nSlice items reads = reads.map (readSpec items) := chunkRun_spec cache nSlice items reads
+
+example : runShuffle (.kwRow [.seq [4, 2], .num 3]) 20 shuffleProgram none = some [4, 2, 3] := by decide
+/-- an edit of the control flow is noticed: without the `[1]` default the program no longer computes the model's seeds -/
+theorem shuffle_program_counterexample :
+    runShuffle (.args []) 20 ((shuffleProgram.take 5) ++ (shuffleProgram.drop 7)) none = some [] ∧ shuffleSeeds (.args []) = [1] := by
+  decide
 
 end Coba.C09
